@@ -35,6 +35,7 @@ class Facts:
         it = Interp(self.program, registry=self.ctx.registry, theory=theory, **kw)
         from .intrinsics import install
         install(it, self)
+        it.persistent_ids = self.__dict__.setdefault("_persistent_ids", set())
         if algorithms and not getattr(self, "_building_regs", False):
             # the process-wide table filled at import: one (fresh, per lookup) instance per registered key
             from .ops import LazyInstance
